@@ -129,6 +129,9 @@ theorem prob_prune_paths_tie (row : List (Tr Float)) (reach : Array Float) {row'
   · cases h
     rw [if_neg h1]
 
+/-- the hypothesis of `prob_prune_paths_tie` is satisfiable with a renormalised row -/
+example : (prunePathsProb (α := Float) #[0, 0.5] [⟨"", 0.5, 0⟩, ⟨"", 0.5, 1⟩]).toBool = true := by decide +kernel
+
 /-! ### B. strategies -/
 
 /-- the only link between Python's `round(x, d)` (a double) and the model's scaled integer: rounded values are
@@ -359,9 +362,9 @@ theorem p1_sel_tie (er : Array Float) (row : List (Tr Float)) (m : Float) (ns : 
   simp only [encA, idx_arr]
   by_cases c1 : er.getD t.tgt 0 ≥ m
   · simp only [c1, if_true]
-    exact ⟨rfl, fun t' h => by cases h; rfl⟩
+    exact ⟨trivial, fun t' h => by cases h; rfl⟩
   · simp only [c1, if_false]
-    exact ⟨rfl, ho⟩
+    exact ⟨trivial, ho⟩
 
 theorem p1_rew_tie (rndI : Float → Int) (owners : Array Owner) (rewards : Array Float)
     (nodes : Array (List (Tr Float))) (reach : Array Float) (v : RewVecs Float) (s : Nat)
@@ -394,5 +397,160 @@ theorem p1_rew_tie (rndI : Float → Int) (owners : Array Owner) (rewards : Arra
       cases hx
       rw [h1, h2 t' hsel]
       simp only [encA, idx_arr]
+
+/-- the hypotheses of `p1_rew_tie` are satisfiable on a non-empty row -/
+example : (#[Owner.p1].getD 0 .prob = .p1) ∧
+    (stepRew (fun _ => 0) #[Owner.p1] #[(1 : Float)] #[[⟨"a", 0, 0⟩]] #[0] ⟨#[1], #[1], #[0]⟩ 0).toBool = true := by
+  decide +kernel
+
+/-- the filter of `PlayerTwo._expected_rewards_min_reach` on the encoded row -/
+theorem filter_strat_encA (row : List (Tr Float)) (strat : List String) :
+    List.filter (fun (ns : String × Int) => decide (ns.1 ∈ strat)) (row.map encA)
+      = (row.filter (fun t => strat.contains t.act)).map encA := by
+  rw [List.filter_map]
+  congr 1
+  apply List.filter_congr
+  intro t _
+  simp only [Function.comp, encA, List.contains_eq_mem]
+  exact decide_eq_decide.mpr Iff.rfl
+
+/-- the guarded minimum loop over the whole row is the minimum loop over the filtered row -/
+theorem min_reach_fold (ermr : Array Float) (strat : List String) (row : List (Tr Float)) :
+    ∀ init : Float,
+    List.foldl (fun (st1 : Float) (it2 : String × Int) =>
+        if it2.1 ∈ strat then (if Py.idx ermr.toList it2.2 < st1 then Py.idx ermr.toList it2.2 else st1) else st1)
+      init (row.map encA)
+    = (row.filter (fun t => strat.contains t.act)).foldl
+        (fun m t => let x := ermr.getD t.tgt 0; if x < m then x else m) init := by
+  induction row with
+  | nil => intro _; rfl
+  | cons t ts ih =>
+    intro init
+    simp only [List.map_cons, List.foldl_cons, List.filter_cons]
+    rw [ih]
+    by_cases c : t.act ∈ strat
+    · have c' : strat.contains t.act = true := by simpa using c
+      simp only [encA, c, c', if_true, List.foldl_cons, idx_arr]
+    · have c' : strat.contains t.act = false := by simpa using c
+      simp only [encA, c, c', if_false, Bool.false_eq_true]
+
+/-- STATEMENT CHANGED (extra hypothesis `hs`).  Without it the statement is false: for a non-empty strategy list
+none of whose actions labels a transition of the row, Python raises IndexError; the translation's `Py.idx`
+yields `default` there (value `ermr[0] + reward`) while the model returns 0.
+Counterexample: row = [], reward = 1, ermr = #[5], strat = ["a"]: code 6, model 0. -/
+theorem p2_rew_min_reach_tie (row : List (Tr Float)) (r : Float) (ermr : Array Float) (strat : List String)
+    (hs : strat = [] ∨ ∃ t ∈ row, t.act ∈ strat) :
+    Ex.Tad.PlayerTwo__expected_rewards_min_reach (row.map encA) r ermr.toList strat
+      = p2RewMinReach r ermr row strat := by
+  unfold Ex.Tad.PlayerTwo__expected_rewards_min_reach p2RewMinReach
+  by_cases hst : strat = []
+  · subst hst
+    have hf : row.filter (fun t => ([] : List String).contains t.act) = [] := by simp
+    rw [hf, if_pos (by simp)]
+  · have hne : ¬ ¬ (strat ≠ []) := by simpa using hst
+    rw [if_neg hne]
+    dsimp only
+    rw [List.map_id', filter_strat_encA, min_reach_fold]
+    obtain ⟨t, htr, hta⟩ := hs.resolve_left hst
+    cases hf : row.filter (fun t => strat.contains t.act) with
+    | nil =>
+      have : t ∈ row.filter (fun t => strat.contains t.act) := by
+        simp [List.mem_filter, htr, hta]
+      rw [hf] at this
+      cases this
+    | cons t0 rest =>
+      simp only [List.map_cons, idx_cons_zero, encA, idx_arr]
+
+example : ([ "a" ] : List String) = [] ∨ ∃ t ∈ ([⟨"a", 0, 0⟩] : List (Tr Float)), t.act ∈ ["a"] :=
+  Or.inr ⟨_, List.mem_cons_self, List.mem_cons_self⟩
+
+/-- every action named by `worstStratFrom` labels a transition of the row -/
+theorem worst_strat_mem (rnd : Float → Int) (vals : Array Float) (row : List (Tr Float)) :
+    ∀ (acc : Int × List String) (a : String),
+      a ∈ (row.foldl (fun (acc : Int × List String) t =>
+        let v := rnd (vals.getD t.tgt 0)
+        if v < acc.1 then (v, [t.act]) else if v == acc.1 then (acc.1, acc.2 ++ [t.act]) else acc) acc).2 →
+      a ∈ acc.2 ∨ ∃ t ∈ row, t.act = a := by
+  induction row with
+  | nil => intro acc a h; exact Or.inl h
+  | cons t ts ih =>
+    intro acc a h
+    rw [List.foldl_cons] at h
+    rcases ih _ a h with h1 | ⟨t', ht', e⟩
+    · dsimp only at h1
+      split_ifs at h1
+      · right
+        exact ⟨t, List.mem_cons_self, (List.mem_singleton.mp h1).symm⟩
+      · rcases List.mem_append.mp h1 with h2 | h2
+        · exact Or.inl h2
+        · right
+          exact ⟨t, List.mem_cons_self, (List.mem_singleton.mp h2).symm⟩
+      · exact Or.inl h1
+    · right
+      exact ⟨t', List.mem_cons_of_mem _ ht', e⟩
+
+/-- the selection loop of `PlayerTwo.value_iteration_rewards` once the code holds an encoded successor -/
+theorem p2_sel_tie (er : Array Float) (row : List (Tr Float)) (m : Float) (t : Tr Float) :
+    List.foldl (fun (st1 : Float × (String × Int)) (it2 : String × Int) =>
+        if Py.idx er.toList it2.2 ≤ st1.1 then (Py.idx er.toList it2.2, it2) else (st1.1, st1.2)) (m, encA t) (row.map encA)
+    = ((row.foldl (fun (acc : Float × Tr Float) t =>
+        let x := er.getD t.tgt 0
+        if x ≤ acc.1 then (x, t) else acc) (m, t)).1,
+       encA (row.foldl (fun (acc : Float × Tr Float) t =>
+        let x := er.getD t.tgt 0
+        if x ≤ acc.1 then (x, t) else acc) (m, t)).2) := by
+  refine fold_sim (fun (s : Float × (String × Int)) (t : Float × Tr Float) => s = (t.1, encA t.2)) _ _ encA ?_
+    row (m, encA t) (m, t) rfl
+  rintro ⟨m1, ns⟩ ⟨m2, t2⟩ t hR
+  cases hR
+  simp only [encA, idx_arr]
+  by_cases c1 : er.getD t.tgt 0 ≤ m2
+  · simp only [c1, if_true]
+  · simp only [c1, if_false]
+
+/-- STATEMENT CHANGED (extra hypothesis `hfin`: the expected reward of the first successor is not NaN).
+Without it the statement is false: the code starts from `min_rewards = er[first]` with `min_next_state`
+unassigned, and `x ≤ min_rewards` never holds when `er[first]` is NaN, so Python raises UnboundLocalError (the
+translation reads `default`, i.e. state 0) while the model starts from the first successor.
+Counterexample: row = [("a", 1)], er = #[0, NaN], pmr = #[0.3, 0.7]: model third component 0.7, code 0.3. -/
+theorem p2_rew_tie {rnd2 : Float → Int → Float} {rndI : Float → Int} (h : RndAgree rnd2 6 rndI)
+    (owners : Array Owner) (rewards : Array Float) (nodes : Array (List (Tr Float))) (reach : Array Float)
+    (v : RewVecs Float) (s : Nat) (ho : owners.getD s .prob = .p2)
+    (hfin : ∀ t0, (nodes.getD s []).head? = some t0 → v.er.getD t0.tgt 0 ≤ v.er.getD t0.tgt 0) :
+    stepRew rndI owners rewards nodes reach v s
+      = .ok (Ex.Tad.PlayerTwo_value_iteration_rewards rnd2 ((nodes.getD s []).map encA) (rewards.getD s 0)
+          reach.toList v.er.toList v.ermr.toList v.pmr.toList) := by
+  unfold stepRew Ex.Tad.PlayerTwo_value_iteration_rewards
+  dsimp only
+  rw [ho]
+  revert hfin
+  generalize nodes.getD s [] = row
+  generalize rewards.getD s 0 = r
+  intro hfin
+  cases row with
+  | nil => simp
+  | cons t ts =>
+    have hne : ¬ ¬ (List.map encA (t :: ts) ≠ []) := by simp
+    have h0 := hfin t rfl
+    rw [if_neg hne, ← worst_strat_reach_tie h, p2_rew_min_reach_tie]
+    · simp only [List.isEmpty_cons, Bool.false_eq_true, if_false, List.map_cons, List.foldl_cons, idx_cons_zero]
+      simp only [encA, idx_arr, h0, if_true]
+      rw [show ((t.act, (t.tgt : Int)) : String × Int) = encA t from rfl, p2_sel_tie]
+      simp only [encA, idx_arr]
+    · by_cases hst : worstStratFrom rndI (rndI 1) reach (t :: ts) = []
+      · exact Or.inl hst
+      · right
+        obtain ⟨a, ha⟩ := List.exists_mem_of_ne_nil _ hst
+        rcases worst_strat_mem rndI reach (t :: ts) (rndI 1, []) a ha with h1 | ⟨t', ht', e⟩
+        · cases h1
+        · exact ⟨t', ht', by rw [e]; exact ha⟩
+
+/-- the extra hypothesis of `p2_rew_tie` is satisfiable on a non-empty row -/
+example : ∀ t0, ([⟨"a", 0, 0⟩] : List (Tr Float)).head? = some t0 →
+    (#[(1 : Float)]).getD t0.tgt 0 ≤ (#[(1 : Float)]).getD t0.tgt 0 := by
+  intro t0 h
+  cases h
+  decide +kernel
+
 
 end CR.Tie
